@@ -801,6 +801,12 @@ fn bulk(store: &TensorStore, rel: &RelationalEngine, seed: u64, n: u32, probes: 
     }
 }
 
+/// Data classes of the property statement (plus cache entries) that a built store holds; the two
+/// internal slabs reachable only through `router()` are labelled but not counted.
+pub fn counted_classes(p: &Probes) -> usize {
+    p.classes.iter().filter(|c| !matches!(**c, "graph-tensor" | "blob-log")).count()
+}
+
 /// Number of entries a content holds (for labels only).
 pub fn size_class(store: &TensorStore) -> &'static str {
     let n = store.scan("").len();
